@@ -100,7 +100,7 @@ pub fn run(ctx: &Ctx) -> Report {
         "'every release' is represented by two: the pinned snapshot f3fcb84 (frozen copy, compiled without overflow checks like a shipped build) and the working tree".into(),
         "the typed-trace API is not part of the transcript (composition of throwable and frame lookups; its handling of unmapped throwables is an API-level repair, not a change of what bytes mean)".into(),
     ];
-    let n = ctx.cases(4000, 60_000);
+    let n = ctx.cases(4000, 180_000);
     rep.run_stage("ast", || map_case(&cfg()), n, check_case);
     let corpus = super::c02::corpus_cases(ctx);
     rep.run_enum("corpus", &corpus, check_corpus);
